@@ -69,3 +69,15 @@ VARIANTS += [
  dict(name='resolve-helper-path-has-extra-component', file=M, expect='flagged(confined/(*ngo/plugin.CLIManager).resolveIn)', find=RS_GET_OLD,
       replace='\tpath, err := m.resolveIn(name, path.Join(name, ctx.Value("sub").(string), binName(name)))\n', edits=[RS_HELPER]),
 ]
+
+# completeness of the listing: every real sub-directory is recorded, SkipDir only for directories
+LS_OLD = '\t\tif !typ.IsDir() || typ&fs.ModeSymlink != 0 {\n\t\t\t// Ignore non-directories and symlinked directories.\n\t\t\treturn nil\n\t\t}\n'
+VARIANTS += [
+ dict(name='list-skipdir-for-every-entry', file=M, expect='flagged(list/skip-only-directories)', find=LS_OLD,
+      replace='\t\tif !typ.IsDir() || typ&fs.ModeSymlink != 0 {\n\t\t\treturn fs.SkipDir\n\t\t}\n'),
+ dict(name='list-skipall-after-first', file=M, expect='flagged(list/skip-only-directories)', find='\t\treturn fs.SkipDir\n\t}); err != nil {', replace='\t\treturn fs.SkipAll\n\t}); err != nil {'),
+ dict(name='list-drops-long-names', file=M, expect='flagged(list/complete)', find=LS_OLD,
+      replace=LS_OLD + '\t\tif len(d.Name()) > 64 {\n\t\t\treturn fs.SkipDir\n\t\t}\n'),
+ dict(name='benign-list-symlink-then-dir-tests', file=M, expect='silent', find=LS_OLD,
+      replace='\t\tif typ&fs.ModeSymlink != 0 {\n\t\t\treturn nil\n\t\t}\n\t\tif !typ.IsDir() {\n\t\t\treturn nil\n\t\t}\n'),
+]
